@@ -375,25 +375,44 @@ def check_wiring(prog, rep):
     # _evaluate: F,G,H order
     g = prog.own_method(c, "_evaluate")
     rep.saw(g)
-    txt = dump(g.node)
-    okz = txt.count("zip(['F', 'G', 'H'], vals)") == 1 and txt.count("zip(['F', 'G', 'H'], [obj, ineqcv, eqcv])") == 1
-    oks = "obj = numpy.stack([e[0] for e in vals])" in txt and "ineqcv = numpy.stack([e[1] for e in vals])" in txt and "eqcv = numpy.stack([e[2] for e in vals])" in txt
-    if okz and oks:
-        rep.ok("R3-wiring", g.qualname, "F, G, H <- (obj, ineqcv, eqcv) in that order, single and batched")
-    else:
-        keys = [n for n in walk_no_nested(g.node) if isinstance(n, ast.List) and all(isinstance(e, ast.Constant) for e in n.elts) and len(n.elts) == 3]
-        bad = [dump(k) for k in keys if [e.value for e in k.elts] != ["F", "G", "H"]]
-        stk = {}
-        for n in walk_no_nested(g.node):
-            if isinstance(n, ast.Assign) and isinstance(n.targets[0], ast.Name) and "numpy.stack([e[" in dump(n.value):
-                stk[n.targets[0].id] = dump(n.value)
-        wrong = [k for k, i in (("obj", 0), ("ineqcv", 1), ("eqcv", 2)) if k in stk and "e[%d]" % i not in stk[k]]
-        if bad:
-            rep.violate("R3-wiring", g.qualname, "pymoo slots are written in the order %s, not F,G,H" % bad[0], where(g), "['F','G','H']", bad[0])
-        elif wrong:
-            rep.violate("R3-wiring", g.qualname, "batched %s is stacked from the wrong component: %s" % (wrong[0], stk[wrong[0]]), where(g))
+    gdefs = {}
+    for n in walk_no_nested(g.node):
+        if isinstance(n, ast.Assign) and len(n.targets) == 1 and isinstance(n.targets[0], ast.Name):
+            gdefs.setdefault(n.targets[0].id, []).append(n.value)
+    zips = [n for n in ast.walk(g.node) if isinstance(n, ast.Call) and dump(n.func) == "zip" and len(n.args) == 2 and isinstance(n.args[0], ast.List)
+            and all(isinstance(e, ast.Constant) and isinstance(e.value, str) for e in n.args[0].elts)]
+    verdict = "ok" if len(zips) >= 1 else "unrec"
+    for z in zips:
+        keys = [e.value for e in z.args[0].elts]
+        if keys != ["F", "G", "H"]:
+            rep.violate("R3-wiring", g.qualname, "pymoo slots are written in the order %s, not F,G,H (= objectives, inequality, equality violations)" % keys, where(g, z), "['F','G','H']", str(keys))
+            verdict = "bad"
+            continue
+        vals = z.args[1]
+        if isinstance(vals, ast.Name):
+            src = gdefs.get(vals.id, [])
+            if not (len(src) >= 1 and any(isinstance(v, ast.Call) and dump(v.func) == "self.evalfn" for v in src)):
+                verdict = "unrec" if verdict != "bad" else verdict
+        elif isinstance(vals, ast.List) and len(vals.elts) == 3 and all(isinstance(e, ast.Name) for e in vals.elts):
+            for pos, e in enumerate(vals.elts):
+                d = gdefs.get(e.id, [None])[-1]
+                idx = None
+                if isinstance(d, ast.Call) and prog.dotted(g.module, d.func) in ("numpy.stack", "numpy.array", "numpy.vstack") and d.args and isinstance(d.args[0], ast.ListComp):
+                    elt = d.args[0].elt
+                    if isinstance(elt, ast.Subscript) and isinstance(elt.slice, ast.Constant):
+                        idx = elt.slice.value
+                if idx is None:
+                    verdict = "unrec" if verdict != "bad" else verdict
+                elif idx != pos:
+                    rep.violate("R3-wiring", g.qualname, "slot %s of the batched evaluation is stacked from component %d of evalfn's (obj, ineqcv, eqcv) tuple, not component %d"
+                                % (keys[pos], idx, pos), where(g, d), "e[%d]" % pos, "e[%d]" % idx)
+                    verdict = "bad"
         else:
-            rep.unrec("R3-wiring", g.qualname, "_evaluate not in the modelled form")
+            verdict = "unrec" if verdict != "bad" else verdict
+    if verdict == "ok":
+        rep.ok("R3-wiring", g.qualname, "F, G, H <- (obj, ineqcv, eqcv) in that order, single and batched (%d zip sites)" % len(zips))
+    elif verdict == "unrec":
+        rep.unrec("R3-wiring", g.qualname, "_evaluate not in the modelled form")
 
 
 def check_factor(prog, rep):
@@ -577,7 +596,9 @@ def check_chunks(prog, rep):
         ref = VN(prog, f).expr(ast.parse("numpy.array(vmatfcty.from_gmod(gmod=gmod, pgmat=pgmat, ncross=ncross, nprogeny=nprogeny, nself=nself, gmapfn=gmapfn).epgc)"
                                          ".dot(gmod.gebv(pgmat).unscale()[%s, :]) + selection_intensity * numpy.sqrt(vmatfcty.from_gmod(gmod=gmod, pgmat=pgmat, ncross=ncross, "
                                          "nprogeny=nprogeny, nself=nself, gmapfn=gmapfn).mat[tuple(%s) + (slice(None),)])" % (cc, cc), mode="eval").body)
-        okhdr = dump(lp.iter) == "enumerate(xmap)" and dump(store.targets[0]) == "uc[%s, :]" % i
+        retn = [x.value.id for x in body_nodoc(f.node) if isinstance(x, ast.Return) and isinstance(x.value, ast.Name)]
+        xm = [p_ for p_ in f.params() if p_ == "xmap"] or [f.params()[-1]]
+        okhdr = dump(lp.iter) == "enumerate(%s)" % xm[0] and retn and "".join(dump(store.targets[0]).split()) == "%s[%s,:]" % (retn[0], i)
         if val == ref and okhdr:
             rep.ok("R6-chunks", construct, "uc[i] = epgc . bv[cross] + intensity * sqrt(var[cross]) for every row of the cross map")
         elif not okhdr:
